@@ -8,6 +8,7 @@ import (
 	"net"
 	"os"
 	"path/filepath"
+	"strings"
 	"sync"
 	"syscall"
 	"time"
@@ -157,6 +158,7 @@ type runner struct {
 	envId  uid.ID
 	self   string
 	await  map[string]int
+	port   int
 }
 
 func freePort() int {
@@ -174,7 +176,10 @@ func (rn *runner) script() (string, int) {
 	var s string
 	switch rn.sc.Kind {
 	case "ctl":
-		port = freePort()
+		port = rn.port
+		if port == 0 {
+			port = freePort()
+		}
 		if rn.sc.Beh == "noready" {
 			s = fmt.Sprintf("read x < %s; exit 0", f) // never listens on the control port
 		} else {
@@ -383,7 +388,9 @@ func (rn *runner) request(r string) {
 			err = rn.vx.HandleMessage(data)
 		}
 	})
-	delivered := err == nil
+	// handleMessageEvent's named result is also written by the goroutine it spawns (e.g. "RPC is
+	// down"); only the lookup failure means the request did not reach the task
+	delivered := err == nil || !(strings.HasPrefix(err.Error(), "no active task") || err.Error() == "invalid task ID")
 	nth := v.nReq[r] + 1
 	if delivered {
 		v.nReq[r]++
@@ -564,7 +571,7 @@ func (rn *runner) tail() {
 	}
 }
 
-func runOne(scnPath, dir string) int {
+func runOne(scnPath, dir string, port int) int {
 	logrus.SetOutput(io.Discard)
 	logrus.SetLevel(logrus.PanicLevel)
 	raw, err := os.ReadFile(scnPath)
@@ -584,7 +591,7 @@ func runOne(scnPath, dir string) int {
 	}
 	self, _ := os.Executable()
 	rn := &runner{sc: &sc, dir: dir, tag: filepath.Base(dir), fifo: filepath.Join(dir, "release.fifo"), self: self,
-		envId: uid.New(), await: map[string]int{}}
+		envId: uid.New(), await: map[string]int{}, port: port}
 	rn.rec = &recorder{f: f, sc: &sc, v: view{nStatus: map[string]int{}, nResp: map[string]int{}, nSig: map[string]int{},
 		nOcc: map[string]int{}, nReq: map[string]int{}, cmdReq: map[string]string{}}}
 	if err := syscall.Mkfifo(rn.fifo, 0600); err != nil {
